@@ -256,6 +256,7 @@ func (Engine) Run(t *tape.Tape, o eng.Opts) *eng.Result {
 		}
 		fsCalls, fsFaults, seekFault, mutations := 0, 0, false, 0
 		contentFault := false // an injected seek/read fault fired while content was being served
+		readFault := false
 		staticStatus := 0
 		staticBody := 0
 		var fsSeq []string
@@ -282,6 +283,9 @@ func (Engine) Run(t *tape.Tape, o eng.Opts) *eng.Result {
 					}
 					if (op == "seek" || op == "read" || op == "read-short") && staticStatus == 0 {
 						contentFault = true
+					}
+					if op == "read" || op == "read-short" {
+						readFault = true
 					}
 				}
 			case world.EvSpyHeader:
@@ -375,7 +379,11 @@ func (Engine) Run(t *tape.Tape, o eng.Opts) *eng.Result {
 		res.Probes["static_answered:"+class]++
 		res.Sigs = append(res.Sigs, sigOf(spec, backing, q, fsSeq, class))
 		// Rule 2: content.
-		if inRel, outside := d.attribute(body); outside {
+		inRel, outside, stale := d.attribute(body, q.StartStamp)
+		if stale && len(body) >= 12 && staticStatus >= 200 && staticStatus < 300 {
+			viol("stale-content", "the body is a version of "+quote(inRel)+" that had been replaced or removed before this request began: "+quote(string(clip(body, 60)))+"\n  "+desc)
+		}
+		if outside {
 			viol("outside-content", "bytes of a file outside the served directory reached the client: "+quote(string(clip(body, 80)))+"\n  "+desc)
 		} else if staticStatus >= 200 && staticStatus < 300 && len(body) >= 6 {
 			if inRel == "" {
@@ -438,7 +446,10 @@ func (Engine) Run(t *tape.Tape, o eng.Opts) *eng.Result {
 			}
 		}
 		// A complete answer is complete: without an injected read/write fault the body has the announced length.
-		if (staticStatus == 200 || staticStatus == 206) && q.Method == "GET" && len(q.WPlan) == 0 && fsFaults == 0 {
+		if q.W.NStatus > 1 {
+			viol("second-status", "the underlying writer received "+itoa(q.W.NStatus)+" status lines\n  "+desc)
+		}
+		if (staticStatus == 200 || staticStatus == 206) && q.Method == "GET" && len(q.WPlan) == 0 && !readFault {
 			if cl := q.W.Sent.Get("Content-Length"); cl != "" {
 				n := 0
 				okNum := true
